@@ -50,7 +50,7 @@ pub fn child_main(args: &[String]) -> ! {
     std::process::exit(0)
 }
 
-fn run_child(sim: &SimParams, argv: &[&str]) -> Result<(i32, String, String), String> {
+pub fn run_child(sim: &SimParams, argv: &[&str]) -> Result<(i32, String, String), String> {
     let exe = std::env::current_exe().map_err(|e| e.to_string())?;
     let o = std::process::Command::new(exe)
         .arg("cli-child")
